@@ -490,6 +490,11 @@ def v_close(fd):
     _point('close', fd)
     if fd in _world.fds:
         _drop_fd(fd)
+    err = getattr(_world, 'close_faults', {}).pop(fd, None)
+    if err is not None:
+        # close(2) reporting EIO / EINTR: on Linux the descriptor is gone
+        # all the same
+        raise OSError(err, os.strerror(err))
 
 
 def _io_answer(op, fd, n):
